@@ -15,7 +15,8 @@
                                                       minus DocumentAnnotation
    * id assignment during a save (`_find_all_fs`: `if fs.xmiID is None: fs.xmiID = self._get_next_xmi_id()`):
      the store is a list of (label, option id) plus the generator's next id; a format is the list of labels its
-     traversal visits, in visiting order (XMI / typecheck: without inlinable collections; JSON: with them).
+     traversal visits, in visiting order (XMI / typecheck: without inlinable collections; JSON: with them); the byte
+     arrays holding sofa data are given ids and written outside the traversal (xmi_trav, save_pre).
    Not modelled: bytes (escaping, pretty printing, prefixes), sinks, processes — those are observed by the harness. *)
 From Cassis Require Import Base.
 From Coq Require Import Ascii.
@@ -52,12 +53,14 @@ Definition sort_s {A} (key : A -> string) : list A -> list A := sort_by key sleb
 (* ------------------------------------------------------------------------------------------------ emitted items *)
 
 Record fsitem := mkFi { fi_id : Z; fi_lab : N; fi_type : string }.
-Record sofaitem := mkSo { so_id : Z; so_num : Z; so_name : string }.
+(* so_arr: id of the byte array holding the sofa data (Sofa.sofaArray), if the sofa has one *)
+Record sofaitem := mkSo { so_id : Z; so_num : Z; so_name : string; so_arr : option Z }.
 Record viewitem := mkVi { vi_sofa : Z; vi_members : list Z }.      (* members in index iteration order *)
 Record tyitem := mkTy { ty_name : string; ty_super : string }.
 
 Definition DOCANN : string := "uima.tcas.DocumentAnnotation".
 Definition SOFA : string := "uima.cas.Sofa".
+Definition BYTEARRAY : string := "uima.cas.ByteArray".
 
 (* the package of a type name: what CasXmiSerializer turns into the namespace URL ("uima.noNamespace" if there is no dot) *)
 Fixpoint has_dot (s : string) : bool :=
@@ -84,12 +87,14 @@ Definition xmi_emit (found : list fsitem) (sofas : list sofaitem) (views : list 
   let fs := sort_z fi_id found in
   mkXd fs (first_seen [] (map (fun i => pkg_of (fi_type i)) fs)) sofas (map sort_members views).
 
-(* JSON: types by name (a set in arbitrary order comes in), sofa structures first then structures by id, views *)
+(* JSON: types by name (a set in arbitrary order comes in), sofa structures first (per view: the byte array holding the
+   sofa data if there is one, then the sofa; json.py `for view in cas.views`) then structures by id, views *)
 Definition json_types_emit (types : list tyitem) : list tyitem :=
   filter (fun t => negb (String.eqb (ty_name t) DOCANN)) (sort_s ty_name types).
-Definition sofa_fs (s : sofaitem) : fsitem := mkFi (so_id s) 0%N SOFA.
+Definition sofa_fs (s : sofaitem) : list fsitem :=
+  (match so_arr s with Some a => [mkFi a 0%N BYTEARRAY] | None => [] end) ++ [mkFi (so_id s) 0%N SOFA].
 Definition json_fs_emit (found : list fsitem) (sofas : list sofaitem) : list fsitem :=
-  map sofa_fs sofas ++ sort_z fi_id found.
+  flat_map sofa_fs sofas ++ sort_z fi_id found.
 Record jsondoc := mkJd { jd_types : option (list tyitem); jd_fs : list fsitem; jd_views : list (string * viewitem) }.
 Definition json_emit (types : option (list tyitem)) (found : list fsitem) (sofas : list sofaitem)
                      (views : list (string * viewitem)) : jsondoc :=
@@ -136,6 +141,21 @@ Definition doc_of (trav : list N) (s : state) : list (N * Z) := sort_z snd (list
 Definition save (trav : list N) (s : state) : state * list (N * Z) :=
   let s' := traverse trav s in (s', doc_of trav s').
 
+(* byte arrays holding sofa data (Sofa.sofaArray).  `ta` = their labels in the order of Cas.sofas / Cas.views (a label
+   twice when two sofas share one array).
+   XMI (xmi.py CasXmiSerializer.serialize): after `list(cas._find_all_fs())`, for every sofa
+       `if sofa.sofaArray is not None and not any(fs is sofa.sofaArray for fs in feature_structures):` the array gets an
+       id if it has none and is appended — every time, whether or not it already has an id; the whole list is then sorted.
+   JSON (json.py CasJsonSerializer.serialize): in the loop over the views, BEFORE the traversal, the array gets an id if
+       it has none and is written in front of its sofa — not sorted, and written once more among the sorted structures
+       when the traversal reaches it as well.
+   typecheck does not look at them. *)
+Definition add_array (acc : list N) (a : N) : list N := if existsb (N.eqb a) acc then acc else acc ++ [a].
+Definition xmi_trav (ta tx : list N) : list N := fold_left add_array ta tx.
+Definition doc_of_pre (pre trav : list N) (s : state) : list (N * Z) := listed pre s ++ doc_of trav s.
+Definition save_pre (pre trav : list N) (s : state) : state * list (N * Z) :=
+  let s' := traverse (pre ++ trav) s in (s', doc_of_pre pre trav s').
+
 (* ids present in the store, in store order *)
 Definition present (es : list entry) : list Z :=
   flat_map (fun e => match e_id e with Some i => [i] | None => [] end) es.
@@ -156,19 +176,20 @@ Definition wf_stateb (s : state) : bool := znodupb (present (st_entries s)) && b
 Definition query (s : state) (labs : list N) : list Z :=
   zsort (flat_map (fun l => match id_of l (st_entries s) with Some (Some i) => [i] | _ => [] end) labs).
 
-(* operations of the in-process histories *)
+(* operations of the in-process histories; ta = sofa data arrays, tx = what _find_all_fs() visits, tj = what
+   _find_all_fs(include_inlinable_arrays_and_lists=True) visits *)
 Inductive op := OXmi | OJson | OTsXml | OSelect | OSelectAll | OTypecheck.
-Definition step (tx tj : list N) (o : op) (s : state) : state * option (list (N * Z)) :=
+Definition step (ta tx tj : list N) (o : op) (s : state) : state * option (list (N * Z)) :=
   match o with
-  | OXmi => let (s', d) := save tx s in (s', Some d)
-  | OJson => let (s', d) := save tj s in (s', Some d)
+  | OXmi => let (s', d) := save (xmi_trav ta tx) s in (s', Some d)
+  | OJson => let (s', d) := save_pre ta tj s in (s', Some d)
   | OTypecheck => (traverse tx s, None)            (* Cas.typecheck iterates _find_all_fs() *)
   | OTsXml | OSelect | OSelectAll => (s, None)
   end.
-Fixpoint run (tx tj : list N) (ops : list op) (s : state) : list (state * option (list (N * Z))) :=
+Fixpoint run (ta tx tj : list N) (ops : list op) (s : state) : list (state * option (list (N * Z))) :=
   match ops with
   | [] => []
-  | o :: r => let (s', d) := step tx tj o s in (s', d) :: run tx tj r s'
+  | o :: r => let (s', d) := step ta tx tj o s in (s', d) :: run ta tx tj r s'
   end.
 
 (* the documents of one kind (k = OXmi or OJson) produced along a history *)
@@ -177,15 +198,15 @@ Definition op_eqb (a b : op) : bool :=
   | OXmi, OXmi | OJson, OJson | OTsXml, OTsXml | OSelect, OSelect | OSelectAll, OSelectAll | OTypecheck, OTypecheck => true
   | _, _ => false
   end.
-Fixpoint docs_of (k : op) (tx tj : list N) (ops : list op) (s : state) : list (list (N * Z)) :=
+Fixpoint docs_of (k : op) (ta tx tj : list N) (ops : list op) (s : state) : list (list (N * Z)) :=
   match ops with
   | [] => []
   | o :: r =>
-      let (s', d) := step tx tj o s in
-      (match d with Some d => if op_eqb o k then [d] else [] | None => [] end) ++ docs_of k tx tj r s'
+      let (s', d) := step ta tx tj o s in
+      (match d with Some d => if op_eqb o k then [d] else [] | None => [] end) ++ docs_of k ta tx tj r s'
   end.
-Fixpoint states_of (tx tj : list N) (ops : list op) (s : state) : list state :=
+Fixpoint states_of (ta tx tj : list N) (ops : list op) (s : state) : list state :=
   match ops with
   | [] => []
-  | o :: r => let s' := fst (step tx tj o s) in s' :: states_of tx tj r s'
+  | o :: r => let s' := fst (step ta tx tj o s) in s' :: states_of ta tx tj r s'
   end.
